@@ -382,6 +382,7 @@ GENERATORS = {'C01': c01, 'C02': c02, 'C03': c03}
 
 def _late():
     from . import gen2
+    globals()['c04'] = gen2.c04
     GENERATORS.update({'C07': gen2.c07, 'C09': gen2.c09, 'C10': gen2.c10, 'C11': gen2.c11, 'C12': gen2.c12, 'C13': gen2.c13, 'C05': gen2.c05})
 
 
